@@ -1,4 +1,5 @@
 import Txtpp.Lemmas.SinkFacts
+import Txtpp.Lemmas.CleanParse
 /-!
 # Property C07 — clean removes exactly what build generated and never executes anything
 -/
@@ -41,6 +42,38 @@ theorem txtpp_temp_target_refused {W : Type} (Wd : World W) (le : List Char) (w 
     (body : List (List Char)) (isClean : Bool) (h : isTxtppPath target = true) :
     execTemp Wd le w (target :: body) isClean = none := by
   simp [execTemp, h]
+
+/-- Clean removes exactly what build generated — the parse side: whenever build's grouping of the
+source lines into directive blocks succeeds, clean groups the same lines into exactly the same
+blocks (same directives, same arguments, same continuation lines). So text that build treated as
+directive *content* (e.g. a `TXTPP#temp …` line escaped inside a `write`) is never a directive for
+clean, and every temp block of build is a temp block of clean with the same target. -/
+theorem clean_sees_builds_blocks {W : Type} (Wd : World W) (mode : Mode) (hm : mode ≠ .clean) (le : List Char)
+    (lines : List (List Char)) (bs : List (Refine.Block Directive))
+    (h : Refine.parse (txtppSem Wd mode le) none lines = some bs) :
+    Refine.parse (txtppSem Wd .clean le) none lines = some bs :=
+  parse_clean_eq_build Wd mode hm le lines none bs h
+
+/-- … the effect side: for a temp block with target `t`, build writes `t`, clean removes `t` (and
+ignores a failing removal); every other block is a no-op for clean -/
+theorem temp_block_build_writes {W : Type} (Wd : World W) (le : List Char) (s : PpState W) (d : Directive)
+    (target : List Char) (body : List (List Char))
+    (hty : d.ty = .temp) (hargs : d.args = target :: body) (hpm : s.pm = .exec) (hn : isTxtppPath target = false) :
+    execDirective Wd .build le s d =
+      (match Wd.writeTemp s.w target (joinWith le body) with
+       | none => none
+       | some w' => some ({ s with w := w' }, none)) := build_temp_block Wd le s d target body hty hargs hpm hn
+
+theorem temp_block_clean_removes {W : Type} (Wd : World W) (le : List Char) (s : PpState W) (d : Directive)
+    (target : List Char) (body : List (List Char))
+    (hty : d.ty = .temp) (hargs : d.args = target :: body) (hn : isTxtppPath target = false) :
+    execDirective Wd .clean le s d =
+      (match Wd.removeTemp s.w target with
+       | none => some (s, none)
+       | some w' => some ({ s with w := w' }, none)) := clean_temp_block Wd le s d target body hty hargs hn
+
+theorem other_blocks_clean_noop {W : Type} (Wd : World W) (le : List Char) (s : PpState W) (d : Directive)
+    (hty : d.ty ≠ .temp) : execDirective Wd .clean le s d = some (s, none) := clean_other_block Wd le s d hty
 
 /-- everything a clean pass leaves untouched keeps its bytes (sources, included files, unrelated files) -/
 theorem clean_keeps_untouched (cfg : Cfg) (fs : FS) (src : Path) (first : Bool) :
